@@ -274,23 +274,54 @@ fn index(zd: &mut ZoneData, recs: impl Iterator<Item = SRec>) {
 
 /// Build one world. `variant` selects NSEC vs NSEC3 flavours of the leaf
 /// zone (the upper zones use NSEC).
-pub fn build_world(variant: u32, epoch: u32) -> World {
+type KeyAndRecord = (SigningKey<Bytes, KeyPair>, Dnskey<Vec<u8>>);
+
+/// The keys of a hierarchy. Worlds that are stages in the life of one
+/// hierarchy are built from the same keys.
+pub struct Keys {
+    root: KeyAndRecord,
+    tld: KeyAndRecord,
+    zone: KeyAndRecord,
+    evil: KeyAndRecord,
+    z1: KeyAndRecord,
+    z2_ksk: KeyAndRecord,
+    z2: KeyAndRecord,
+    island: KeyAndRecord,
+}
+
+pub fn make_keys() -> Keys {
+    Keys {
+        root: make_key(".", 1),
+        tld: make_key("tld.", 2),
+        zone: make_key("zone.tld.", 3),
+        evil: make_key("evil.tld.", 4),
+        z1: make_key("z1.ent.tld.", 5),
+        z2_ksk: make_key("z2.ent.tld.", 6),
+        z2: make_zsk("z2.ent.tld."),
+        island: make_key("island.tld.", 7),
+    }
+}
+
+pub fn build_world(variant: u32, epoch: u32, keys: &Keys) -> World {
     let inception = epoch - 86_400;
     let expiration = epoch + 30 * 86_400;
     let ds_expiration = epoch + 12 * 86_400;
-    let root_key = make_key(".", 1);
-    let tld_key = make_key("tld.", 2);
-    let zone_key = make_key("zone.tld.", 3);
-    let evil_key = make_key("evil.tld.", 4);
+    let root_key = &keys.root;
+    let tld_key = &keys.tld;
+    let zone_key = &keys.zone;
+    let evil_key = &keys.evil;
     // Two zones delegated two labels below the tld's apex (`ent.tld.` is an
     // empty non-terminal of the tld zone): the walk from the tld's keys to
     // theirs passes a name that is no zone cut.
-    let z1_key = make_key("z1.ent.tld.", 5);
+    let z1_key = &keys.z1;
     // z2.ent.tld. keeps a key-signing key (what the DS refers to, signs the
     // DNSKEY RRset only) apart from its zone-signing key.
-    let z2_ksk = make_key("z2.ent.tld.", 6);
-    let z2_key = make_zsk("z2.ent.tld.");
-    let island_key = make_key("island.tld.", 7);
+    let z2_ksk = &keys.z2_ksk;
+    let z2_key = &keys.z2;
+    let island_key = &keys.island;
+    // Variants 4-7 are variants 0-3 a little later in the island's life: its
+    // DS has been published in the tld zone (the delegation became secure).
+    let island_ds = if variant >= 4 { format!("island.tld. 3600 IN DS {}\n", ds_text("island.tld.", &island_key.1)) } else { String::new() };
     let leaf_denial = match variant % 4 {
         0 => Denial::Nsec,
         1 => Denial::Nsec3 { iterations: 0, salt: false, opt_out: false },
@@ -307,7 +338,7 @@ pub fn build_world(variant: u32, epoch: u32) -> World {
     // RFC 4035 section 5.2 has a validator ignore those and use the rest.
     let extra_ds = if variant % 2 == 1 { format!("zone.tld. 3600 IN DS 4711 15 2 {}\n", "AB".repeat(32)) } else { String::new() };
     let tld_text = format!(
-        "tld. 3600 IN SOA ns.tld. admin.tld. 1 7200 3600 86400 300\ntld. 3600 IN NS ns.tld.\nns.tld. 3600 IN A 198.51.100.2\nzone.tld. 3600 IN NS ns.zone.tld.\n{extra_ds}zone.tld. 3600 IN DS {}\nns.zone.tld. 3600 IN A 198.51.100.3\nunsigned.tld. 3600 IN NS ns.unsigned.tld.\nns.unsigned.tld. 3600 IN A 198.51.100.4\nevil.tld. 3600 IN NS ns.evil.tld.\nevil.tld. 3600 IN DS {}\nns.evil.tld. 3600 IN A 198.51.100.66\nplain.tld. 3600 IN TXT \"in the tld zone\"\nalso.unsigned2.tld. 3600 IN TXT \"below an ent\"\nz1.ent.tld. 3600 IN NS ns.z1.ent.tld.\nz1.ent.tld. 3600 IN DS {}\nns.z1.ent.tld. 3600 IN A 198.51.100.71\nz2.ent.tld. 3600 IN NS ns.z2.ent.tld.\nz2.ent.tld. 3600 IN DS {}\nns.z2.ent.tld. 3600 IN A 198.51.100.72\ned.tld. 3600 IN NS ns.ed.tld.\ned.tld. 3600 IN DS 4712 15 2 {}\nns.ed.tld. 3600 IN A 198.51.100.73\nisland.tld. 3600 IN NS ns.island.tld.\nns.island.tld. 3600 IN A 198.51.100.74\n",
+        "tld. 3600 IN SOA ns.tld. admin.tld. 1 7200 3600 86400 300\ntld. 3600 IN NS ns.tld.\nns.tld. 3600 IN A 198.51.100.2\nzone.tld. 3600 IN NS ns.zone.tld.\n{extra_ds}zone.tld. 3600 IN DS {}\nns.zone.tld. 3600 IN A 198.51.100.3\nunsigned.tld. 3600 IN NS ns.unsigned.tld.\nns.unsigned.tld. 3600 IN A 198.51.100.4\nevil.tld. 3600 IN NS ns.evil.tld.\nevil.tld. 3600 IN DS {}\nns.evil.tld. 3600 IN A 198.51.100.66\nplain.tld. 3600 IN TXT \"in the tld zone\"\nalso.unsigned2.tld. 3600 IN TXT \"below an ent\"\nz1.ent.tld. 3600 IN NS ns.z1.ent.tld.\nz1.ent.tld. 3600 IN DS {}\nns.z1.ent.tld. 3600 IN A 198.51.100.71\nz2.ent.tld. 3600 IN NS ns.z2.ent.tld.\nz2.ent.tld. 3600 IN DS {}\nns.z2.ent.tld. 3600 IN A 198.51.100.72\ned.tld. 3600 IN NS ns.ed.tld.\ned.tld. 3600 IN DS 4712 15 2 {}\nns.ed.tld. 3600 IN A 198.51.100.73\nisland.tld. 3600 IN NS ns.island.tld.\n{island_ds}ns.island.tld. 3600 IN A 198.51.100.74\n",
         ds_text("zone.tld.", &zone_key.1),
         ds_text("evil.tld.", &evil_key.1),
         ds_text("z1.ent.tld.", &z1_key.1),
@@ -366,15 +397,15 @@ ns.island.tld. 3600 IN A 198.51.100.74\n\
 www.island.tld. 300 IN A 192.0.2.74\n\
 txt.island.tld. 300 IN TXT \"on the island\"\n";
     let mut zones = vec![
-        build_zone(".", &root_text, Some(&root_key), Denial::Nsec, inception, expiration),
-        build_zone("tld.", &tld_text, Some(&tld_key), tld_denial, inception, expiration),
-        build_zone("zone.tld.", zone_text, Some(&zone_key), leaf_denial, inception, expiration),
+        build_zone(".", &root_text, Some(root_key), Denial::Nsec, inception, expiration),
+        build_zone("tld.", &tld_text, Some(tld_key), tld_denial, inception, expiration),
+        build_zone("zone.tld.", zone_text, Some(zone_key), leaf_denial, inception, expiration),
         build_zone("unsigned.tld.", unsigned_text, None, Denial::Nsec, inception, expiration),
-        build_zone("evil.tld.", evil_text, Some(&evil_key), Denial::Nsec, inception, expiration),
-        build_zone("z1.ent.tld.", z1_text, Some(&z1_key), Denial::Nsec, inception, expiration),
-        build_zone_split("z2.ent.tld.", z2_text, Some(&z2_key), Some(&z2_ksk), leaf_denial, inception, expiration),
+        build_zone("evil.tld.", evil_text, Some(evil_key), Denial::Nsec, inception, expiration),
+        build_zone("z1.ent.tld.", z1_text, Some(z1_key), Denial::Nsec, inception, expiration),
+        build_zone_split("z2.ent.tld.", z2_text, Some(z2_key), Some(z2_ksk), leaf_denial, inception, expiration),
         build_zone("ed.tld.", ed_text, None, Denial::Nsec, inception, expiration),
-        build_zone("island.tld.", island_text, Some(&island_key), Denial::Nsec, inception, expiration),
+        build_zone("island.tld.", island_text, Some(island_key), Denial::Nsec, inception, expiration),
     ];
     // The DS of zone.tld is signed for a shorter period.
     {
